@@ -410,7 +410,9 @@ def _mk_intervals(c, stranded):
     """the table of the case's entries. `src` names where the table comes from (the SAME entries in every source):
     built in memory from lists (default), `file`: read from a bed file written for the case (a lazily parsed table),
     `file2`: two files holding the entries before / after `fcut`, read and joined with np.concatenate,
-    `filesel`: read from a file that holds extra rows, which are then removed by a boolean mask"""
+    `filesel`: read from a file that holds extra rows, which are then removed by a boolean mask; `giconcat`: two
+    GenomicIntervals objects joined with np.concatenate (NumPy dispatch on the library's own type); `gisel`: a
+    GenomicIntervals object with extra rows indexed with a boolean mask"""
     from bionumpy.datatypes import Interval, StrandedInterval
     iv = c["iv"]
     src = c.get("src", "mem")
@@ -421,6 +423,17 @@ def _mk_intervals(c, stranded):
             k = c.get("fcut", len(iv) // 2)
             parts = [p for p in (iv[:k], iv[k:]) if p]
             return np.concatenate([_read_table(_bed_for(c, p, stranded, f"-p{j}"), stranded) for j, p in enumerate(parts)])
+        if src in ("giconcat", "gisel"):
+            # (via Geometry: the table-level analogue of the GenomicIntervals-level operations done in _call)
+            mem = lambda part: _mk_intervals(dict(c, iv=part, src="mem"), stranded)
+            if src == "giconcat":
+                k = c.get("fcut", len(iv) // 2)
+                return np.concatenate([mem(p) for p in (iv[:k], iv[k:]) if p])
+            rows, keep = [], []
+            for x in iv:
+                rows += [x, [x[0], 0, 1, True]]
+                keep += [True, False]
+            return mem(rows)[np.array(keep)]
         if src == "filesel":
             # every entry is followed by a decoy row on the same chromosome; the decoys are masked out again
             rows, keep = [], []
@@ -443,7 +456,12 @@ def _mk_intervals(c, stranded):
 def _genome(c):
     import bionumpy as bnp
     d = dict(zip(c["names"], c["sizes"]))
-    return bnp.Genome.from_dict(d, filter_function=_filter_fn(c))
+    G = bnp.Genome.from_dict(d, filter_function=_filter_fn(c))
+    for added in c.get("gderive") or []:
+        # a DERIVED genome object: more names (none of them in the genome or in the data) are ignored on top of the
+        # ones the filter ignores already; everything else must stay as it was
+        G = G.with_ignored_added(list(added))
+    return G
 
 
 def _incl_names(c):
@@ -453,7 +471,7 @@ def _incl_names(c):
 
 def _obs_intervals(c, chrom, start, stop):
     idx = {n: i for i, n in enumerate(_incl_names(c))}
-    return {"iv": [[idx[n], s, e] for n, s, e in zip(_names_of(chrom), _ints(start), _ints(stop))]}
+    return {"iv": [[idx.get(n, "?" + str(n)), s, e] for n, s, e in zip(_names_of(chrom), _ints(start), _ints(stop))]}
 
 
 def _rows(r):
@@ -627,7 +645,7 @@ def _call(c):
             return {"g": _ints(g)}
         chrom, local = go.to_local_coordinates(np.array(c["gs"], dtype=int))
         idx = {n: i for i, n in enumerate(_incl_names(c))}
-        return {"cp": [[idx[n], p] for n, p in zip(_names_of(chrom), _ints(local))]}
+        return {"cp": [[idx.get(n, "?" + str(n)), p] for n, p in zip(_names_of(chrom), _ints(local))]}
     if via == "geometry":
         geo = Geometry(dict(zip(c["names"], c["sizes"])))
         iv = _mk_intervals(c, stranded or op == "extend")
@@ -658,6 +676,16 @@ def _call(c):
         return _obs_intervals(c, w.chromosome, w.start, w.stop)
     if c.get("src") == "file" and c["iv"]:
         gi = G.read_intervals(_bed_for(c, c["iv"], stranded), stranded=stranded)     # the documented route from a file
+    elif c.get("src") == "giconcat" and c["iv"]:
+        k = c.get("fcut", len(c["iv"]) // 2)
+        gi = np.concatenate([G.get_intervals(_mk_intervals(dict(c, iv=p, src="mem"), stranded), stranded=stranded)
+                             for p in (c["iv"][:k], c["iv"][k:]) if p])
+    elif c.get("src") == "gisel" and c["iv"]:
+        rows, keep = [], []
+        for x in c["iv"]:
+            rows += [[x[0], 0, 1, False], x]
+            keep += [False, True]
+        gi = G.get_intervals(_mk_intervals(dict(c, iv=rows, src="mem"), stranded), stranded=stranded)[np.array(keep)]
     else:
         gi = G.get_intervals(_mk_intervals(c, stranded), stranded=stranded)
     if op in ("pileup", "mask"):
@@ -987,7 +1015,7 @@ def _boundary_merge_cases():
                                    "iv": [[0, a, s1, True], [1, 0, e, True]], "d": d}
 
 
-_SRCS = ("file", "file2", "filesel")
+_SRCS = ("file", "file2", "filesel", "giconcat", "gisel")
 
 
 def _profile_cases(big):
@@ -1055,7 +1083,7 @@ _DEFAULT_FILTER_ONLY = {"files", "hugegenome", "ctor", "xgenome", "sgeometry", "
 
 def cases(tier, rng):
     _tmpdir()
-    k = 0
+    k = kd = 0
     for c in _cases_all(tier, rng):
         yield c
         # the same case under a CALLER-SUPPLIED filter_function (keyword of Genome.from_dict / GenomeContext.from_dict):
@@ -1067,6 +1095,13 @@ def cases(tier, rng):
                 names = [n.replace("_", "X") for n in c["names"]]
                 if len(set(names)) == len(names):
                     yield dict(c, names=names, filt=[n for n, o in zip(names, c["names"]) if "_" in o])
+        # the same case on a genome object DERIVED with with_ignored_added (once / twice) from the one that already ignores
+        # the '_' names
+        if c.get("filt") and c.get("via", "genome") == "genome" and c["op"] not in (_DEFAULT_FILTER_ONLY - {"files"}) \
+                and "queries" not in c and any("_" in n for n in c["names"]):
+            kd += 1
+            if kd % 3 == 0:
+                yield dict(c, gderive=[["chrM"]] if kd % 2 else [["chrEBV", "chrM"], ["chrUn9"]])
 
 
 def _cases_all(tier, rng):
